@@ -1,2 +1,6 @@
 import Bridge.Abs
 import Bridge.Quotient
+import Bridge.ExtAbs
+import Bridge.ScanAbs
+import Bridge.LayerAbs
+import Bridge.Rename
